@@ -394,4 +394,32 @@ theorem v1_correct (P : X.Program) (m : X.Proc) (st : Stages) (img : Image) (inp
     exact v1_core P m inp fuel β st.cg st.lowered img (v1Gs P m) code gs2 hv hm hrun g hgen (Nat.le_refl _)
       c2 c7 c8 c9 c10 c11 c12 c13 c14 c15 c16 c17
 
+/-- **The class V1 with its side conditions, as one decidable predicate of the source program**:
+    one procedure `main` without formals, only `var` declarations, a body of the stage-3 fragment,
+    and the compilation passes `v1Check`. -/
+def v1Ok (P : X.Program) : Bool :=
+  match P.procs, stages P with
+  | [m], .ok st =>
+    match assembleDirs st.optimised with
+    | .ok img => isV1 P && v1Check P m st img
+    | .error _ => false
+  | _, _ => false
+
+theorem v1_whole (P : X.Program) (inp : X.Input) (fuel : Nat) (β : X.Behaviour) (img : Image)
+    (hok : v1Ok P = true) (hcomp : compile P = .ok img) (hrun : X.run P inp fuel = .defined β) :
+    ∃ n code j s' io, Isa.run n (Am.boot img) (Isa.IOSt.init inp.stdin inp.files) = .exited code j s' io ∧
+      code = β.exit ∧ io.log.reverse = β.events ∧ inp.stdin.length - io.stdin.length = β.stdinConsumed := by
+  unfold v1Ok at hok
+  split at hok
+  · rename_i m st hm hst
+    have hc : compile P = assembleDirs st.optimised := by
+      unfold compile compileDirs
+      rw [hst]
+      rfl
+    rw [hc] at hcomp
+    rw [hcomp] at hok
+    simp only [Bool.and_eq_true] at hok
+    exact v1_correct P m st img inp fuel β hok.1 hm hcomp hok.2 hrun
+  · simp at hok
+
 end Hex.C01s
